@@ -206,6 +206,16 @@ def corpus() -> List[dict]:
                    ['star', 0, 'c04lib.helpers'], ['class', 'Sub', '_impl', []], ['alias', 'chk', '_dm']]),
         M('c04lib.rel', [['star', 1, 'helpers'], ['class', 'R', 'pub', []]]),
     ], 'order': None})
+    # a locally bound name spelled like a ROOT package: the dotted name through it must follow the local binding
+    out.append({'tag': 'local-name-spelled-like-root', 'modules': [
+        M('core', [], True), M('core.util', [['class', 'RootU', None, []]]),
+        M('app', [], True), M('app.core', [], True), M('app.core.util', [['class', 'AppU', None, [['def', 'meth']]]]),
+        M('app.main', [['from', 0, 'app', [['core', None]]], ['import', 'app.core.util', None],
+                       ['class', 'K', None, [['from', 1, '', [['core', None]]], ['import', 'app.core.util', 'util'],
+                                             ['alias', 'ku', 'core.util.AppU']]],
+                       ['alias', 'mu', 'core.util.AppU'], ['class', 'S', 'core.util.AppU', []]]),
+        M('app.other', [['import', 'app.core', 'core'], ['import', 'app.core.util', None], ['alias', 'ou', 'core.util']]),
+    ], 'order': None})
     # genuine defects kept as corpus cases (known findings)
     out.append({'tag': 'nested-class-capture', 'modules': [
         M('m', [['class', 'A0', None, []], ['class', 'B0', None, []], ['alias', 'x', 'A0'],
